@@ -9,7 +9,7 @@ MANIFEST_ENTRY = dict(engine="EvmCosmos", design="§4 C04",
 
 
 def run(c):
-    evmrun.run_family(c, "C04", "C04", nquick=5000, nrand=(0, 15000))
+    evmrun.run_family(c, "C04", "C04", nquick=8000, nrand=(0, 15000))
 
 
 def replay(path, quiet=False):
